@@ -34,3 +34,7 @@ pub use popcount::{popcount_word, popcount_word_portable, popcount_words};
 pub use rank::RankDirectory;
 pub use scan::{block_popcount_portable, scan_select, scan_select_scalar, select_from, BLOCK};
 pub use select::{SampleWord, SelectIndex};
+
+#[cfg(all(feature = "verif-hooks", target_arch = "x86_64"))]
+#[doc(hidden)]
+pub use scan::block_popcount_avx2;
